@@ -13,6 +13,38 @@ structure GJob where
   deadline : Nat
 deriving DecidableEq, Repr
 
+/-- An exception object: identity and Python truthiness (almost always true; see S18). -/
+structure GExc where
+  id : Nat
+  truthy : Bool := true
+deriving DecidableEq, Repr
+
+abbrev GExcOpt := Option GExc
+
+def excTruthy : GExcOpt → Bool
+  | some e => e.truthy
+  | none => false
+
+/-- A result value: identity and Python truthiness. -/
+structure GVal where
+  id : Nat
+  truthy : Bool
+deriving DecidableEq, Repr
+
+/-- What a combinator observes of a finished input future. -/
+structure GIn where
+  id : Nat
+  cancelled : Bool
+  exception : GExcOpt
+  result : GVal
+deriving DecidableEq, Repr
+
+/-- A slot of `Zipper.fs`: still the input future, or already replaced by its result. -/
+inductive GSlot
+  | future (id : Nat)
+  | value (v : GVal)
+deriving DecidableEq, Repr
+
 def listFoldMin : List Nat → Nat
   | [] => 0
   | [x] => x
